@@ -46,7 +46,7 @@ func c17List(tier string) []c17Case {
 	for _, v := range []string{"stuck-writer", "failing-reader", "failing-writer", "dial-error", "slow-dial"} {
 		add("isolation", v, 4)
 	}
-	for _, v := range []string{"reattach-before-old-fails", "reattach-after-old-fails", "reattach-before-old-write-fails"} {
+	for _, v := range []string{"reattach-before-old-fails", "reattach-after-old-fails", "reattach-before-old-write-fails", "reattach-from-disconnect-callback"} {
 		add("reattach", v, 4)
 	}
 	for _, v := range []string{"serve-loop-held-in-intercepter", "serve-loop-held-in-disconnect-callback"} {
@@ -99,7 +99,9 @@ func c17Run(tier string, seed int64, idx int) *core.Result {
 		}
 		return p
 	}
-	px := goat.NewProxy(ctx, "px", func(id string) (goat.RpcReadWriter, error) {
+	var px *goat.Proxy
+	var cbNewer *c17Peer // the connection the disconnect callback re-attaches (variant reattach-from-disconnect-callback)
+	px = goat.NewProxy(ctx, "px", func(id string) (goat.RpcReadWriter, error) {
 		switch id {
 		case "slow":
 			gates.Wait("dial")
@@ -120,6 +122,16 @@ func c17Run(tier string, seed int64, idx int) *core.Result {
 		mu.Unlock()
 		if c.Variant == "serve-loop-held-in-disconnect-callback" && id == "failing" {
 			gates.Wait("serve-loop")
+		}
+		if c.Variant == "reattach-from-disconnect-callback" && id == "a1" {
+			// the natural reconnect pattern: the callback attaches the peer's new connection
+			mu.Lock()
+			nw := cbNewer
+			cbNewer = nil
+			mu.Unlock()
+			if nw != nil {
+				px.AddClient("a1", nw.link.B)
+			}
 		}
 	})
 	a0, a1 := mkPeer("a0", true), mkPeer("a1", true)
@@ -346,6 +358,15 @@ func c17Run(tier string, seed int64, idx int) *core.Result {
 	case "reattach":
 		newer := mkPeer("a1", true)
 		switch c.Variant {
+		case "reattach-from-disconnect-callback":
+			mu.Lock()
+			cbNewer = newer
+			mu.Unlock()
+			if next() {
+				a1.link.B.FailRead()
+				quiet(tier)
+			}
+			next()
 		case "reattach-before-old-fails", "reattach-before-old-write-fails":
 			if next() {
 				guarded(tier, res, "Proxy.AddClient", func() { px.AddClient("a1", newer.link.B) })
